@@ -743,6 +743,23 @@ def s3_invalid():
     yield 'inv/z/crate_not_path', S([dw([('L', P('Zeroize'), [('NV', P('crate'), ('EOther', ['1']))], None)])])
     yield 'inv/z/nested_list', S([dw([('L', P('Zeroize'), [('L', P('crate'), ['x'])], None)])])
     yield 'inv/z/empty_opts', S([dw([('L', P('Zeroize'), [], None)])])
+    # ZeroizeOnDrop parses its options with its own copy of the code: every invalid option list once more for it
+    nvx = lambda n, v: ('NV', P(n), ('EPath', (False, [v])))
+    for tag, metas in (('unknown_nv', [nvx('foo', 'x')]), ('crate_dup', [nvx('crate', 'x'), nvx('crate', 'y')]), ('crate_then_unknown', [nvx('crate', 'x'), nvx('foo', 'y')]),
+                       ('crate_unnecessary', [('NV', P('crate'), ('EPath', (True, ['zeroize'])))]), ('crate_bad_str', [('NV', P('crate'), ('EStr', '"1 +"', None))]),
+                       ('crate_not_path', [('NV', P('crate'), ('EOther', ['1']))]), ('nested_list', [('L', P('crate'), ['x'])]), ('crate_then_list', [nvx('crate', 'x'), ('L', P('crate'), ['y'])]),
+                       ('empty_opts', []), ('crate_then_path', [nvx('crate', 'x'), mpath('fqs')])):
+        yield 'inv/zod/' + tag, S([dw([('L', P('ZeroizeOnDrop'), metas, None)])])
+        yield 'inv/zod_with_zeroize/' + tag, S([dw(['Zeroize', ('L', P('ZeroizeOnDrop'), metas, None)])])
+    yield 'inv/zod/nv', S([dw([('NV', P('ZeroizeOnDrop'), ('EOther', ['1']))])])
+    # the attribute's own grammar: traits are separated by `,`, one `;` opens the bound list, bounds are separated by `,`
+    for tag, elems, gens in (('traits_no_comma', [('Bad', ['Clone', 'Debug'])], None), ('traits_no_comma_later', ['Clone', ('Bad', ['Debug', 'Hash'])], None),
+                             ('traits_no_comma_bounds', [('Bad', ['Clone', 'Debug'])], ['T']), ('trait_then_group', [('Bad', ['Clone', '[', 'x', ']'])], None),
+                             ('second_semicolon', ['Clone'], [('Bad', ['T', ';', 'T'])]), ('bounds_no_comma', ['Clone'], [('Bad', ['T', 'U'])]),
+                             ('double_comma', ['Clone', ('Bad', []), 'Debug'], None), ('leading_comma', [('Bad', []), 'Clone'], None),
+                             ('bounds_double_comma', ['Clone'], ['T', ('Bad', []), 'U']), ('colon_instead_of_semicolon', [('Bad', ['Clone', ':', 'T'])], None),
+                             ('option_no_comma', [('Bad', ['Clone', 'skip_inner'])], None), ('trait_eq', [('Bad', ['Clone', '=', 'Debug'])], None)):
+        yield 'inv/grammar/' + tag, S([dw(elems, gens)], gen=generics([tparam('T'), tparam('U')]))
     yield 'inv/z/zod_opt_path', S([dw([('L', P('ZeroizeOnDrop'), [mpath('drop')], None)])])
     yield 'inv/z/nv', S([dw([('NV', P('Zeroize'), ('EOther', ['1']))])])
     yield 'inv/z/fqs_without_zeroize', S([dw(['ZeroizeOnDrop'])], named(2, [['T'], ['u8']], [[fq(mpath('fqs'))], []]))
@@ -1171,8 +1188,8 @@ def s1_order():
     written never matters for what is skipped / marked, only for which error is reported first)"""
     for cid, it in itertools.chain(s1_all(), s3_invalid()):
         for how in ('metas', 'attrs', 'item', 'traits', 'variants', 'fields'):
-            if cid.startswith('known/'):
-                continue    # witnesses of the open findings stay single items
+            if cid.startswith(('known/', 'inv/grammar/')):
+                continue    # witnesses of the open findings stay single items; the grammar items are about positions
             if how in ('variants', 'fields', 'traits') and cid.startswith(('disc/', 'stagea/')):
                 continue    # the discriminant families enumerate positions themselves (and are by far the largest)
             r = _reorder(it, how)
